@@ -259,6 +259,10 @@ func dynamicCallOfParam(i ssa.Instruction, name string) bool {
 	case *ssa.FreeVar:
 		return v.Name() == name
 	}
+	// a parameter captured by reference and called from a closure: *freevar
+	if _, isFn := cc.Value.Type().Underlying().(*types.Signature); isFn {
+		return accessPath(cc.Value) == "P:"+name
+	}
 	return false
 }
 
